@@ -282,7 +282,6 @@ func (db *database) Close() error {
 		return err
 	}
 
-	db.memMetaDB.Close()
 	for _, shardEntry := range db.shardSet.Entries() {
 		thisShard := shardEntry.shard
 		if err := thisShard.FlushIndex(); err != nil {
@@ -290,9 +289,8 @@ func (db *database) Close() error {
 				"close shard[%d] of database[%s]", shardEntry.shardID, db.name), logger.Error(err))
 		}
 	}
-	if err := db.metaDB.Close(); err != nil {
-		return err
-	}
+	// close shards(flush index/family data) before metadata database,
+	// index building of rows generates tag keys/values under metadata database.
 	for _, shardEntry := range db.shardSet.Entries() {
 		thisShard := shardEntry.shard
 		if err := thisShard.Close(); err != nil {
@@ -300,7 +298,12 @@ func (db *database) Close() error {
 				"close shard[%d] of database[%s]", shardEntry.shardID, db.name), logger.Error(err))
 		}
 	}
-	return nil
+	// flush metadata which generated after previous flush, if not the flushed index/data cannot find its tags.
+	if err := db.flushMeta(); err != nil {
+		return err
+	}
+	db.memMetaDB.Close()
+	return db.metaDB.Close()
 }
 
 // TTL expires the data of each shard base on time to live.
